@@ -448,8 +448,38 @@ func init() {
 				if len(p.v) == 0 && cur.del {
 					return fmt.Sprintf("FAIL D7 empty-application-value-not-captured-over-marker dbi=%s key=%s", n, hx(p.k))
 				}
+				if len(p.v) == 0 {
+					if ob, ok := shadowVer(shBefore, p.k); ok && ob.del && !verBeats(cur, written) {
+						// the same defect one step later: the empty value written over a marker was
+						// not captured, so an older snapshot entry could take the key
+						return fmt.Sprintf("FAIL D7 empty-application-value-not-captured-over-marker-then-overwritten dbi=%s key=%s", n, hx(p.k))
+					}
+				}
 				if !verBeats(cur, written) {
 					return fmt.Sprintf("FAIL application-write-lost-to-a-non-winner dbi=%s key=%s", n, hx(p.k))
+				}
+			}
+			// an application deletion (live in the shadow before, gone from the application DBI) is
+			// a write too: afterwards the shadow holds a marker, or a version that wins against a
+			// deletion stamped at detection time
+			inAppBefore := map[string]bool{}
+			for _, q := range appBefore.kvs {
+				inAppBefore[string(q.k)] = true
+			}
+			var gone []string
+			for k, lv := range liveBefore {
+				if !inAppBefore[k] && len(lv) > 0 {
+					gone = append(gone, k)
+				}
+			}
+			sort.Strings(gone)
+			for _, k := range gone {
+				cur, ok := shAfter[k]
+				if !ok {
+					return fmt.Sprintf("FAIL application-delete-not-captured dbi=%s key=%s", n, hx([]byte(k)))
+				}
+				if !cur.del && !verBeats(cur, ver{ts: symToRealCapture(now), del: true}) {
+					return fmt.Sprintf("FAIL application-delete-undone-by-a-non-winner dbi=%s key=%s", n, hx([]byte(k)))
 				}
 			}
 			if shBefore != nil {
@@ -477,6 +507,19 @@ func init() {
 		}
 		return "ok mirrored"
 	}
+}
+
+func shadowVer(sh *dbiImage, k []byte) (ver, bool) {
+	if sh == nil {
+		return ver{}, false
+	}
+	for _, p := range sh.kvs {
+		if bytes.Equal(p.k, k) {
+			v, err := decodeStored(p.v)
+			return v, err == nil
+		}
+	}
+	return ver{}, false
 }
 
 // symToRealCapture: the real capture timestamp used in window `sym` is not observable before the
